@@ -1,6 +1,6 @@
 // C09 — a discretised distribution is always a valid partition of its continuous parent
 // VF-VARIANT: san
-// VF-RULE: E2 (spaces disc:<family>): every combination of class count x discretisation scheme x median flag x restriction x parameter point of a fixed lattice; one case = construct, setMedian, restrictToConstraint, then every clause of the statement is judged on the resulting state (class count, p>=0, sum, strictly increasing values inside their own class, ordered bounds inside the reported domain, class mass = parent's own cumulative mass over the class relative to the mass of the reported domain, equal masses, mean of mean-valued classes, value look-up at every bound / class value / midpoint, the four cumulative queries, copy/assign independence). Spaces parent:<family>: the parent's pProb/qProb/Expectation on a 128+129-point grid of every reported domain (monotone, inverse, integrated derivative relation). Spaces compound:*: constant / simple / invariant-mixed / mixture over their own lattices, judged on normalisation and class count only. E1 (hist:*): breadth-first closure of the state graph of ONE live object under setParameterValue / setParametersValues / matchParametersValues / setNumberOfCategories / setMedian / restrictToConstraint (four nested and overlapping sub-intervals) / replace-by-copy / replace-by-assigned, with the same audit in every state and two query operations (look-up audit, copy-independence audit). A case is non-trivial when it has >= 2 classes over a domain of positive mass (E2) or the transition changed the canonical state (E1).
+// VF-RULE: E2 (spaces disc:<family>): every combination of class count x discretisation scheme x median flag x restriction x parameter point of a fixed lattice; one case = construct, setMedian, restrictToConstraint, then every clause of the statement is judged on the resulting state (class count, p>=0, sum, strictly increasing values inside their own class, ordered bounds inside the reported domain, class mass = parent's own cumulative mass over the class relative to the mass of the reported domain, equal masses, mean of mean-valued classes, value look-up by value and by index at every bound / class value / midpoint (both must name the same class), the four cumulative queries, copy/assign independence). Spaces parent:<family>: the parent's pProb/qProb/Expectation on a 128+129-point grid of every reported domain (monotone, inverse, integrated derivative relation). Spaces compound:*: constant / simple / invariant-mixed / mixture over their own lattices, judged on normalisation and class count only. E1 (hist:*): breadth-first closure of the state graph of ONE live object under setParameterValue / setParametersValues / matchParametersValues / setNumberOfCategories / setMedian / restrictToConstraint (four nested and overlapping sub-intervals) / replace-by-copy / replace-by-assigned, with the same audit in every state and two query operations (look-up audit, copy-independence audit). A case is non-trivial when it has >= 2 classes over a domain of positive mass (E2) or the transition changed the canonical state (E1).
 // VF-BOUND: class counts {1,2,3,4,5,8,16,32}; schemes {equal-probability, equal-interval, equal-probability-when-possible}; shapes/rates/scales in {0.1,0.5,1,3,10,100} (thorough: {0.1,0.2,0.5,1,2,3,5,10,30,100}); locations (gaussian mean, gamma offset) in {0,0.5,3,100,-1} / {0,0.5,3,-1}; six restrictions per parameter point defined from the closed-form mean and standard deviation; E1: 2-3 values per parameter, class counts {1,2,4} (thorough {1,2,3,4,5,8,16,32}), four restriction intervals, closure of the state graph (histories of any length over that alphabet) per family and scheme
 // VF-LEVEL: bounded-exhaustive execution of the real classes on the stated lattices and closed state graphs; the class masses and means are judged against the object's own parent functions (as the statement says), the parent functions against each other on a grid; nothing is known about parameter values, intervals or class counts outside the lattices
 // VF-ASSUME: the parent's cumulative function is accurate to 4e-8 absolute and cumulative/quantile are inverse to 1e-5 in probability units on the lattice (the series in incompleteGamma is truncated at 1e-8; property C08 judges these functions against an external reference);; a class value may leave its class interval by (k+1) steps of the value resolution the object itself declares (precision(), 1e-12 or 1e-20) or of the double grid at that value, whichever is coarser, which is how far the boundary adjustment and duplicate separation of the library move it; a computed bound or quantile is granted the change of the cumulative function over +-2 steps of the double grid;; the domain is taken as the object reports it (no history-independence of the domain is demanded);; the scheme of the families whose constructor does not expose it is set by a trivial client subclass that assigns the protected member and calls discretize()
@@ -484,7 +484,7 @@ int main(int argc, char** argv) {
   R.expectSeen("parent-grid-checked");
   R.note("domain taken as the object reports it; class masses and means are judged against the object's own pProb/Expectation relative to the mass of the reported domain");
   R.note("a class value may leave its class interval by (k+1) steps of precision() or of the double grid, whichever is coarser: the boundary adjustment and duplicate separation of the library move values by that much by design");
-  R.note("look-up: a value on a bound may be reported in either adjacent class; getCategoryIndex may count from 0 or from 1, but must do so consistently over all test points of a state");
+  R.note("look-up: a value on a bound may be reported in either adjacent class; getCategoryIndex may count from 0 or from 1, but must do so consistently over all test points of a state; the classes being a partition, the two look-ups (by value, by index) must name the same class for every test point, bounds included");
   R.note("signatures of the structural, mass and mean clauses carry the class of the reported domain: regular, tail-domain (mass of one class M/k below 1e-5, the order of the probabilities the library's quantile functions resolve) or zero-mass-domain; every class is judged");
   R.note("domains whose mass is zero in double precision are judged on the structural clauses only (mass and mean clauses are undefined there)");
   R.note("compounds (constant, simple, invariant-mixed, mixture) are judged on class count = class list, p>=0, sum=1, cumulative queries; their bounds are not judged; setNumberOfCategories is not applied to constant/simple (a user-specified class list has no other class count)");
